@@ -80,6 +80,13 @@ CHECKS = {
             "sequences of length<=3 on the GridBinaryTree singleton.",
             "known finding: SIMPSON_ROMBERG containers with >=2 slices (weights do not sum to the length).",
             "exhaustive tree enumeration + operation sequences on the singleton, moment oracle"),
+    "C12": ("DESIGN.md 2/C12",
+            "(a) every operation sequence of depth 4 (thorough 5) over an 11-operation alphabet (single/batch/empty/ndarray/vectorised "
+            "evaluation with colliding points, cache reset, cache deactivation, counter read) on 12 real Function objects, lock-step "
+            "with a reference model (pure scalar eval + a set); (b) complete lattice of 27 built-in classes/parameterisations x d<=3 x all "
+            "boxes with corners in {0,1/4,1/2,1}^d (+ boxes off the unit cube) against composite Gauss-Legendre quadrature of eval.",
+            "Counter only compared while caching is on; UQNormal wrappers and FunctionGeneralizedNormal excluded (see assumptions).",
+            "exhaustive operation-sequence enumeration with reference model + exhaustive input lattice"),
     "C13": ("DESIGN.md 2/C13",
             "Exhaustive lattice of limit configurations (tol x min_evaluations x max_evaluations built from the point counts of an "
             "unlimited baseline, every boundary case) x strategy x integrand x norm, each a complete run of the real adaptive loop "
